@@ -7,6 +7,11 @@ TRUSTED = {
           'A-LOG: logging calls and exception messages are dropped (D2/D3); formatting them neither raises nor mutates'],
     'C01': ['X-STRUCT: struct.Struct(>B >H).pack', 'X-STR: str(int) is the decimal numeral (length by magnitude, ASCII); encode("ascii") raises iff a code point > 127', 'X-OS: open(wb/ab).write'],
     'C02': ['X-STRUCT: struct.Struct(>B >H).pack'],
+    'C04': ['X-STRUCT', 'X-STR', 'summary contracts: write_struct (deterministic function of code and value, instances proved under C06), Attribute.get_as_bytes / _make_attrs_bytes / make_item_body_bytes / _make_template_bytes summaries each proved separately in this property',
+            'Attribute.inferred_representation_code is abstract (any code 1..27 or None, or an exception); _run_checks_and_set_defaults is abstract',
+            'template taken from the first object: verified on item lists of length 0..2 (the function reads element 0 only)',
+            'attribute state type invariant: a non-multivalued attribute holds a scalar'],
+    'C17': ['X-RE: python re semantics of the supported subset (classes, quantifiers, leading ^, trailing $, fullmatch/match/search); language equivalence decided by z3 string theory'],
     'C06': ['X-STRUCT: struct.Struct(fmt).pack for >B >H >I >b >h >i raises struct.error iff out of range else big-endian two\'s complement',
             'X-FLOAT: >f/>d pack is IEEE-754 (uninterpreted ieee32/ieee64; OverflowError for >f abstracted by a predicate)',
             'X-STR: str.encode("ascii")', 'X-DT: datetime.astimezone(utc) yields calendar-range fields',
@@ -25,6 +30,7 @@ ASSUMPTIONS = {
 EXPLANATIONS = {
     'C01': 'Obligations over the real text of get_ascii_bytes, StorageUnitLabel.represent_as_bytes, DLISWriter.__init__/_check_visible_record_length/_make_visible_record/write_storage_unit_label/write_logical_records, LogicalRecordBytes.make_segment/make_segments: the label is sul_bytes(...) of 80 bytes; every chunk handed to the output buffer is one visible record (even, 20..max, FF01, declared length) tiled by exactly one segment (even, >=16, reserved bits clear, pad count consistent); the buffer/byte-writer contracts (C10) carry the chunks to disk unchanged.',
     'C02': 'make_segments: loop invariant acc == bts[0:start_pos] with acc accumulated as a reader strips each yielded segment; predecessor/successor bits by ghost k/done; represent_as_bytes passes body/type/flag unchanged; write_logical_records consumes each record\'s segments completely and in order.',
+    'C04': 'Attribute components (8 value shapes incl. a flat list of symbolic length and nested lists): descriptor bits vs emitted fields, count vs number of encoded values (ghost counter on every write_struct call), byte layout; object component = 0x70 obname + one component per schema attribute in schema order with 0x00 for unset ones (22 item classes, schema extracted from the source each run); set component, template, set body = set + template + objects for any number of objects; file-header literals.',
     'C06': 'Each write_struct* function equals the independent RP66 spec function enc_* on the code\'s domain and raises exactly outside it; spec lemmas dec(enc(v) ++ rest) == (v, consumed) validate the spec.',
     'C10': 'BufferedOutput representation invariant and stream ghost: disk ++ buffer[:filled] == everything appended; flushes move exactly the filled part; first physical write truncates, later ones append; reported total equals file growth.',
     'C15': 'make_segment raises ValueError only for an empty body or an out-of-range request; make_segments raises only for capacity < 12 and every capacity vrl-8 with vrl accepted by the writer is >= 12; write_logical_records cannot raise once the label is written and the chunk size accepted.',
